@@ -708,4 +708,625 @@ theorem stepConn_cle (c : Conn) : CLe c (stepConn c).conn := by
           | exact CLe.of_tle rfl rfl (writeAllLoop_le _ _ _ ‹_›)
           | exact CLe.hs_start rfl (writeAllLoop_le _ _ _ ‹_›) _ _
 
+theorem pollConn_cle : ∀ (fuel : Nat) (c : Conn), CLe c (pollConn fuel c).1
+  | 0, c => .refl _
+  | fuel + 1, c => by
+    rw [pollConn_succ]
+    have h := stepConn_cle c
+    cases hs : stepConn c with
+    | next c' => rw [hs] at h; exact h.trans (pollConn_cle fuel c')
+    | halt c' r => rw [hs] at h; exact h
+
+theorem CLe.hs_mono {c c' : Conn} (h : CLe c c') : hsCount c.env.tr.events ≤ hsCount c'.env.tr.events := by
+  obtain ⟨n, e, _, _⟩ := h.ev
+  rw [e, hsCount_append]; omega
+
+/-! ## The in-flight part of a poll: up to the next `parse_request` -/
+
+def Phase.isParse : Phase → Bool
+  | .parseReq _ _ => true
+  | _ => false
+
+/-- Where the poll stands when it first needs `select(stop, parse_request)` again, or its result if
+it ends before. -/
+inductive Flight
+  | reachedParse (fuelLeft : Nat) (c : Conn)
+  | halted (c : Conn) (r : PRes)
+
+/-- iterate `stepConn` while the phase is `handler`/`closing` -/
+def inFlight : Nat → Conn → Flight
+  | 0, c => .halted c (.panic "model: connection fuel exhausted")
+  | fuel + 1, c =>
+    if c.phase.isParse then .reachedParse (fuel + 1) c
+    else match stepConn c with
+      | .next c' => inFlight fuel c'
+      | .halt c' r => .halted c' r
+
+def Flight.finish : Flight → Conn × PRes
+  | .reachedParse f c => pollConn f c
+  | .halted c r => (c, r)
+
+def Flight.map (g : Conn → Conn) : Flight → Flight
+  | .reachedParse f c => .reachedParse f (g c)
+  | .halted c r => .halted (g c) r
+
+def Step.map (g : Conn → Conn) : Step → Step
+  | .next c => .next (g c)
+  | .halt c r => .halt (g c) r
+
+theorem pollConn_eq_inFlight : ∀ (fuel : Nat) (c : Conn), pollConn fuel c = (inFlight fuel c).finish
+  | 0, c => rfl
+  | fuel + 1, c => by
+    unfold inFlight
+    split
+    · rfl
+    · rw [pollConn_succ]
+      cases hs : stepConn c with
+      | next c' => exact pollConn_eq_inFlight fuel c'
+      | halt c' r => rfl
+
+/-- `handler` and `closing` do not look at the stop flag -/
+theorem stepConn_setStop (c : Conn) (b : Bool) (h : c.phase.isParse = false) :
+    stepConn { c with stop := b } = (stepConn c).map (fun c => { c with stop := b }) := by
+  obtain ⟨phase, env, scripts, stop⟩ := c
+  cases phase with
+  | finished => rfl
+  | parseReq rp sub => cases h
+  | handler r hs =>
+    simp only [stepConn]
+    generalize handlerPoll _ r hs env = x
+    obtain ⟨r', h', e, res⟩ := x
+    cases res with
+    | done res =>
+      cases res with
+      | ok st => rfl
+      | error x => simp only []; split <;> rfl
+    | _ => rfl
+  | closing r cs status alive =>
+    simp only [stepConn]
+    generalize closePoll r cs status alive env.mutex env.tr = x
+    obtain ⟨r', cs', m, t, res⟩ := x
+    cases res <;> rfl
+
+theorem inFlight_setStop : ∀ (fuel : Nat) (c : Conn) (b : Bool),
+    inFlight fuel { c with stop := b } = (inFlight fuel c).map (fun c => { c with stop := b })
+  | 0, c, b => rfl
+  | fuel + 1, c, b => by
+    unfold inFlight
+    by_cases hp : c.phase.isParse = true
+    · simp only [hp, if_true]; rfl
+    · have hp' : c.phase.isParse = false := by simpa using hp
+      simp only [hp', Bool.false_eq_true, if_false]
+      rw [stepConn_setStop c b hp']
+      cases hs : stepConn c with
+      | next c' => exact inFlight_setStop fuel c' b
+      | halt c' r => rfl
+
+theorem inFlight_reached : ∀ (fuel : Nat) (c : Conn) {f : Nat} {c' : Conn},
+    inFlight fuel c = .reachedParse f c' → c'.phase.isParse = true ∧ ∃ f', f = f' + 1
+  | 0, c, f, c', h => by cases h
+  | fuel + 1, c, f, c', h => by
+    unfold inFlight at h
+    split at h
+    · cases h; exact ⟨‹_›, fuel, rfl⟩
+    · split at h
+      · exact inFlight_reached fuel _ h
+      · cases h
+
+/-- with the flag raised, `select` returns the stop branch: no transport call, nothing changes -/
+theorem pollConn_parse_stop (fuel : Nat) (c : Conn) (hp : c.phase.isParse = true) (hs : c.stop = true) :
+    pollConn (fuel + 1) c = ({ c with phase := .finished }, .finished) := by
+  obtain ⟨phase, env, scripts, stop⟩ := c
+  cases phase with
+  | parseReq rp sub => simp only at hs; subst hs; rfl
+  | _ => cases hp
+
+/-! ## The executor -/
+
+theorem release_go_events : ∀ (fuel : Nat) (e : Env) (any : Bool),
+    (Env.release.go fuel e any).1.tr.events = e.tr.events ∧ (Env.release.go fuel e any).1.tr.wlog = e.tr.wlog := by
+  intro fuel
+  induction fuel with
+  | zero => intro e any; simp [Env.release.go]
+  | succ n ih =>
+    intro e any
+    obtain ⟨tr, mutex, segs⟩ := e
+    cases segs with
+    | nil => simp [Env.release.go]
+    | cons p rest =>
+      obtain ⟨g, bs⟩ := p
+      simp only [Env.release.go]
+      split
+      · exact ih _ true
+      · exact ⟨rfl, rfl⟩
+
+theorem release_events (e : Env) : e.release.1.tr.events = e.tr.events ∧ e.release.1.tr.wlog = e.tr.wlog := by
+  unfold Env.release
+  have := release_go_events (e.segs.length + 1) e false
+  generalize Env.release.go (e.segs.length + 1) e false = x at this
+  obtain ⟨e', any⟩ := x
+  exact this
+
+/-- what `runTask` guarantees once the flag is (being) raised -/
+def QExt (c c' : Conn) : Prop :=
+  ∃ new, c'.env.tr.events = c.env.tr.events ++ new ∧ Quiet new
+
+theorem QExt.refl (c : Conn) : QExt c c := ⟨[], by simp, Quiet.nil⟩
+theorem QExt.trans {a b c : Conn} (h1 : QExt a b) (h2 : QExt b c) : QExt a c := by
+  obtain ⟨n1, e1, q1⟩ := h1
+  obtain ⟨n2, e2, q2⟩ := h2
+  exact ⟨n1 ++ n2, by rw [e2, e1, List.append_assoc], q1.append q2⟩
+
+/-- the part of `runTask` before the poll -/
+def prePoll (c : Conn) (pollNo : Nat) (stopAt : Option Nat) : Conn :=
+  let c := if stopAt == some pollNo then { c with stop := true } else c
+  let (env, _) := c.env.release
+  let env := { env with tr := { env.tr with woken := false } }
+  { c with env := env.ev s!"|{pollNo}" }
+
+theorem prePoll_spec (c : Conn) (n : Nat) (sa : Option Nat) :
+    (prePoll c n sa).stop = (c.stop || sa == some n) ∧ QExt c (prePoll c n sa) := by
+  unfold prePoll
+  constructor
+  · split <;> simp_all
+  · refine ⟨[s!"|{n}"], ?_, Quiet.single (by simp [isHS, toString_str])⟩
+    have h : ∀ c0 : Conn, c0.env = c.env →
+        (match c0.env.release with
+        | (env, _) => ({ c0 with env := ({ env with tr := { env.tr with woken := false } } : Env).ev s!"|{n}" } : Conn)).env.tr.events
+          = c.env.tr.events ++ [s!"|{n}"] := by
+      intro c0 h0
+      have := (release_events c0.env).1
+      generalize c0.env.release = x at this
+      obtain ⟨e', any⟩ := x
+      simp only [Env.ev, Transport.ev]
+      simp only at this
+      rw [this, h0]
+    split
+    · exact h _ rfl
+    · exact h _ rfl
+
+theorem runTask_succ (fuel : Nat) (c : Conn) (pollNo : Nat) (stopAt : Option Nat) :
+    runTask (fuel + 1) c pollNo stopAt =
+      match pollConn 100000 (prePoll c pollNo stopAt) with
+      | (c, .finished) => (c, "RET")
+      | (c, .panic _) => (c, "PANIC")
+      | (c, .pending) =>
+        if c.env.tr.woken then runTask fuel c (pollNo + 1) stopAt
+        else
+          let (env, _) := c.env.release
+          if env.tr.woken then runTask fuel { c with env := env } (pollNo + 1) stopAt
+          else
+            let c := { c with env := env }
+            match stopAt with
+            | some k => if k > pollNo && !c.stop then runTask fuel c k stopAt else (c, "STALL")
+            | none => (c, "STALL") := by
+  rfl
+
+theorem release_qext (c : Conn) : QExt c { c with env := c.env.release.1 } :=
+  ⟨[], by simp [(release_events c.env).1], Quiet.nil⟩
+
+theorem CLe.qext {c c' : Conn} (h : CLe c c') (hs : c.stop = true) : QExt c c' := by
+  obtain ⟨n, e, _, q⟩ := h.ev
+  exact ⟨n, e, q hs⟩
+
+/-- `runTask` only ever raises the flag; from the poll at which it is raised on, no poll starts a
+handler. -/
+theorem runTask_stop_quiet : ∀ (fuel : Nat) (c : Conn) (n : Nat) (sa : Option Nat),
+    (c.stop = true → (runTask fuel c n sa).1.stop = true) ∧
+    ((c.stop = true ∨ sa = some n) → QExt c (runTask fuel c n sa).1) := by
+  intro fuel
+  induction fuel with
+  | zero => intro c n sa; exact ⟨fun h => h, fun _ => QExt.refl _⟩
+  | succ k ih =>
+    intro c n sa
+    rw [runTask_succ]
+    obtain ⟨hps, hpq⟩ := prePoll_spec c n sa
+    have hcle := pollConn_cle 100000 (prePoll c n sa)
+    generalize pollConn 100000 (prePoll c n sa) = x at hcle
+    obtain ⟨c3, r⟩ := x
+    simp only at hcle
+    have hstop3 : c.stop = true → c3.stop = true := fun h => by rw [hcle.stop, hps, h]; rfl
+    have hq3 : (c.stop = true ∨ sa = some n) → QExt c c3 := fun h => by
+      refine hpq.trans (hcle.qext ?_)
+      rw [hps]; rcases h with h | h <;> simp [h]
+    have hstop3' : (c.stop = true ∨ sa = some n) → c3.stop = true := fun h => by
+      rw [hcle.stop, hps]; rcases h with h | h <;> simp [h]
+    cases r with
+    | finished => exact ⟨hstop3, hq3⟩
+    | panic s => exact ⟨hstop3, hq3⟩
+    | pending =>
+      simp only
+      split
+      · exact ⟨fun h => (ih c3 (n + 1) sa).1 (hstop3 h),
+          fun h => (hq3 h).trans ((ih c3 (n + 1) sa).2 (Or.inl (hstop3' h)))⟩
+      · have hrel := release_qext c3
+        generalize c3.env.release = y at hrel
+        obtain ⟨env, any⟩ := y
+        simp only at hrel ⊢
+        split
+        · exact ⟨fun h => (ih _ (n + 1) sa).1 (hstop3 h),
+            fun h => ((hq3 h).trans hrel).trans ((ih _ (n + 1) sa).2 (Or.inl (hstop3' h)))⟩
+        · split
+          · split
+            · exact ⟨fun h => (ih _ _ _).1 (hstop3 h),
+                fun h => ((hq3 h).trans hrel).trans ((ih _ _ _).2 (Or.inl (hstop3' h)))⟩
+            · exact ⟨hstop3, fun h => (hq3 h).trans hrel⟩
+          · exact ⟨hstop3, fun h => (hq3 h).trans hrel⟩
+
+/-! ## Leaving `parse_request` towards a handler emits `HS(` -/
+
+def Phase.inFlight : Phase → Bool
+  | .handler _ _ => true
+  | .closing _ _ _ _ => true
+  | _ => false
+
+/-- what a step out of a `parseReq` phase can be -/
+def ParseStepOk (c : Conn) : Step → Prop
+  | .halt c' _ => c'.phase.inFlight = false
+  | .next c' => c'.phase.isParse = true ∨
+      hsCount c'.env.tr.events = hsCount c.env.tr.events + 1
+
+theorem stepConn_parse (c : Conn) (hp : c.phase.isParse = true) : ParseStepOk c (stepConn c) := by
+  obtain ⟨phase, env, scripts, stop⟩ := c
+  cases phase with
+  | parseReq rp sub =>
+    cases stop with
+    | true => rfl
+    | false =>
+      cases sub with
+      | start =>
+        simp only [stepConn, Bool.false_eq_true, if_false]
+        repeat' split
+        all_goals simp_all [ParseStepOk, Phase.inFlight, Phase.isParse]
+      | reading =>
+        simp only [stepConn, Bool.false_eq_true, if_false]
+        repeat' split
+        all_goals simp_all [ParseStepOk, Phase.inFlight, Phase.isParse]
+      | writing rest done =>
+        simp only [stepConn, Bool.false_eq_true, if_false]
+        repeat' split
+        all_goals first
+          | (simp_all [ParseStepOk, Phase.inFlight, Phase.isParse]; done)
+          | (obtain ⟨⟨n, e, q⟩, _, _⟩ := writeAllLoop_le _ _ _ ‹_›
+             right
+             show hsCount (Transport.ev _ (hsEvent _)).events = _
+             simp only [Transport.ev]
+             rw [e, hsCount_append, hsCount_append, hsCount_eq_zero q,
+               hsCount_single_true (isHS_hsEvent _)])
+  | _ => cases hp
+
+theorem from_parse_hs : ∀ (f : Nat) (c : Conn) {c' : Conn} {r : PRes}, c.phase.isParse = true →
+    pollConn f c = (c', r) → c'.phase.inFlight = true →
+    hsCount c.env.tr.events < hsCount c'.env.tr.events := by
+  intro f
+  induction f with
+  | zero =>
+    intro c c' r hp h hin
+    cases h
+    cases hph : c.phase <;> simp_all [Phase.inFlight, Phase.isParse]
+  | succ k ih =>
+    intro c c' r hp h hin
+    rw [pollConn_succ] at h
+    have hstep := stepConn_parse c hp
+    have hcle := stepConn_cle c
+    cases hs : stepConn c with
+    | halt c1 r1 =>
+      rw [hs] at h hstep; cases h
+      simp only [ParseStepOk] at hstep; rw [hstep] at hin; cases hin
+    | next c1 =>
+      rw [hs] at h hstep hcle
+      simp only [Step.run] at h
+      simp only [Step.conn] at hcle
+      have hrest := pollConn_cle k c1
+      rw [h] at hrest
+      simp only [ParseStepOk] at hstep
+      rcases hstep with hp1 | hcount
+      · have := ih c1 hp1 h hin
+        have := hcle.hs_mono
+        omega
+      · have := hrest.hs_mono
+        simp only at this
+        omega
+
+/-! ## Fuel -/
+
+/-- the panic messages of the model's fuel guards (not panic sites of the Rust) -/
+def fuelMsgs : List String :=
+  ["model: write loop fuel exhausted", "model: output loop fuel exhausted",
+   "model: input loop fuel exhausted", "model: boundary loop fuel exhausted",
+   "model: write_all fuel exhausted", "model: handler fuel exhausted",
+   "model: connection fuel exhausted"]
+
+/-- the panic sites of the stream parser model -/
+def strPanicSites : List String :=
+  ["stream.rs:335 stream_buffer must be fully consumed", "stream.rs:339 new_input exceeds input_buffer",
+   "stream.rs:427 consumed > payload_len", "stream.rs:66 debug_assert input stream type",
+   "model: parse loop made no progress"]
+
+theorem parsePayload_panic {p : Str.Parser} {d : Option Nat} {r : Status} {s : String}
+    (h : parsePayload p d r = .panic s) : s = "stream.rs:427 consumed > payload_len" := by
+  simp only [parsePayload] at h
+  repeat' (split at h)
+  all_goals first | (cases h; rfl) | cases h
+
+theorem parseHead_panic {p : Str.Parser} {d : Option Nat} {r : Status} {s : String}
+    (h : parseHead p d r = .panic s) : s = "stream.rs:66 debug_assert input stream type" := by
+  simp only [parseHead] at h
+  repeat' (split at h)
+  all_goals first | (cases h; rfl) | cases h
+
+theorem padHead_panic {q : Str.Parser} {d : Option Nat} {r : Status} {s : String}
+    (h : (if q.pad > 0 then
+            (if q.raw.length ≤ q.pad then Iter.stop { q with raw := [], g1 := q.g1 + q.raw.length, pad := q.pad - q.raw.length } r
+             else parseHead { q with raw := q.raw.drop q.pad, g1 := q.g1 + q.pad, pad := 0 } d r)
+          else parseHead q d r) = .panic s) : s = "stream.rs:66 debug_assert input stream type" := by
+  repeat' (split at h)
+  all_goals first | cases h | exact parseHead_panic h
+
+theorem iter_panic {p : Str.Parser} {d : Option Nat} {r : Status} {s : String}
+    (h : iter p d r = .panic s) : s ∈ strPanicSites := by
+  unfold iter at h
+  by_cases hp : p.pay > 0
+  · simp only [hp, if_true] at h
+    cases hpp : parsePayload p d r with
+    | cont p' d' r' => rw [hpp] at h; rw [padHead_panic h]; decide
+    | panic s' => rw [hpp] at h; cases h; rw [parsePayload_panic hpp]; decide
+    | stop p' r' => rw [hpp] at h; cases h
+    | err p' e => rw [hpp] at h; cases h
+  · simp only [hp, if_false] at h
+    rw [padHead_panic h]; decide
+
+theorem loop_panic (p : Str.Parser) (dest : Option Nat) (res : Status) {s : String}
+    (h : (loop p dest res).2 = .panic s) : s ∈ strPanicSites := by
+  generalize hn : p.raw.length = n
+  induction n using Nat.strongRecOn generalizing p dest res with
+  | _ n ih =>
+    rw [loop] at h
+    split at h
+    · cases h
+    · cases hit : iter p dest res with
+      | cont p' d' r' =>
+        rw [hit] at h
+        simp only at h
+        split at h
+        · exact ih _ (by omega) p' d' r' h rfl
+        · cases h; decide
+      | stop p' r' => rw [hit] at h; cases h
+      | err p' e => rw [hit] at h; cases h
+      | panic s' => rw [hit] at h; cases h; exact iter_panic hit
+
+theorem parse_panic {p : Str.Parser} {new : Bytes} {dest : Option Nat} {s : String}
+    (h : (p.parse new dest).2 = .panic s) : s ∈ strPanicSites := by
+  unfold Str.Parser.parse at h
+  split at h
+  · cases h; decide
+  · split at h
+    · cases h; decide
+    · exact loop_panic _ _ _ h
+
+theorem strPanic_not_fuel {s : String} (h : s ∈ strPanicSites) : s ∉ fuelMsgs := by
+  simp only [strPanicSites, List.mem_cons, List.not_mem_nil, or_false] at h
+  rcases h with rfl | rfl | rfl | rfl | rfl <;> decide
+
+/-! ## Exact write-log facts -/
+
+theorem writeV_spec (t : Transport) (sl : List Bytes) (tag : String) :
+    (t.writeV sl tag).1.input = t.input ∧
+    match (t.writeV sl tag).2 with
+    | .ready (.ok n) => n ≤ sl.flatten.length ∧ (t.writeV sl tag).1.wlog = t.wlog ++ sl.flatten.take n
+    | _ => (t.writeV sl tag).1.wlog = t.wlog := by
+  unfold Transport.writeV
+  generalize sl.flatten = data
+  by_cases hd : data.isEmpty = true
+  · simp only [hd, if_true, Transport.ev]
+    simp
+  · simp only [hd, Bool.false_eq_true, if_false]
+    rcases t.wr with _ | ⟨a, rest⟩
+    · simp [Transport.ev]
+    · cases a <;> simp [Transport.ev] <;> omega
+
+theorem write_ok {t t' : Transport} {buf : Bytes} {n : Nat} (h : t.write buf = (t', .ready (.ok n))) :
+    n ≤ buf.length ∧ t'.wlog = t.wlog ++ buf.take n ∧ t'.input = t.input := by
+  have := writeV_spec t [buf] "W"
+  unfold Transport.write at h
+  rw [h] at this
+  simp at this; exact ⟨this.2.1, this.2.2, this.1⟩
+
+theorem write_notok {t t' : Transport} {buf : Bytes} {r : Poll (Except IoErr Nat)}
+    (h : t.write buf = (t', r)) (hr : ∀ n, r ≠ .ready (.ok n)) : t'.wlog = t.wlog ∧ t'.input = t.input := by
+  have := writeV_spec t [buf] "W"
+  unfold Transport.write at h
+  rw [h] at this
+  obtain ⟨h1, h2⟩ := this
+  refine ⟨?_, h1⟩
+  revert h2
+  cases r with
+  | pending => exact id
+  | ready x => cases x with
+    | error e => exact id
+    | ok n => exact absurd rfl (hr n)
+
+/-- `write_all`: one poll writes a prefix of the buffer and keeps exactly the remainder; with
+`buf.length + 1` fuel the loop never runs out of fuel (it has no other way to panic). -/
+theorem writeAllLoop_spec : ∀ (fuel : Nat) (buf : Bytes) (t : Transport) {rest : Bytes} {t' : Transport} {res : ORes},
+    writeAllLoop fuel buf t = (rest, t', res) →
+    (∃ done, buf = done ++ rest ∧ t'.wlog = t.wlog ++ done) ∧ t'.input = t.input ∧
+    (res = .ready → rest = []) ∧ (buf.length < fuel → ∀ s, res ≠ .panic s) := by
+  intro fuel
+  induction fuel with
+  | zero =>
+    intro buf t rest t' res h; simp only [writeAllLoop] at h; cases h
+    exact ⟨⟨[], by simp⟩, rfl, by simp, by omega⟩
+  | succ k ih =>
+    intro buf t rest t' res h
+    simp only [writeAllLoop] at h
+    split at h
+    · cases h
+      exact ⟨⟨[], by simp⟩, rfl, fun _ => by simpa using ‹buf.isEmpty = true›, by simp⟩
+    · split at h
+      · cases h
+        obtain ⟨h1, h2⟩ := write_notok ‹_› (by simp)
+        exact ⟨⟨[], by simp [h1]⟩, h2, by simp, by simp⟩
+      · cases h
+        obtain ⟨h1, h2⟩ := write_notok ‹_› (by simp)
+        exact ⟨⟨[], by simp [h1]⟩, h2, by simp, by simp⟩
+      · cases h
+        obtain ⟨_, h1, h2⟩ := write_ok ‹_›
+        exact ⟨⟨[], by simpa using h1⟩, h2, by simp, by simp⟩
+      · rename_i tw n hne hw
+        obtain ⟨hn, h1, h2⟩ := write_ok hw
+        obtain ⟨⟨done, hd, hl⟩, hi, hr, hf⟩ := ih _ _ h
+        refine ⟨⟨buf.take n ++ done, ?_, ?_⟩, hi.trans h2, hr, ?_⟩
+        · rw [List.append_assoc, ← hd, List.take_append_drop]
+        · rw [hl, h1, List.append_assoc]
+        · intro hlt
+          apply hf
+          have : n ≠ 0 := fun h0 => hne (by rw [h0])
+          simp only [List.length_drop]
+          have : buf.length ≠ 0 := by
+            intro h0; have := List.length_eq_zero_iff.1 h0; simp_all
+          omega
+
+theorem outLoop_spec : ∀ (fuel : Nat) (sp : Str.Parser) (t : Transport) {sp' : Str.Parser} {t' : Transport} {res : ORes},
+    outLoop fuel sp t = (sp', t', res) →
+    (∃ done, sp.output = done ++ sp'.output ∧ t'.wlog = t.wlog ++ done) ∧
+    sp' = { sp with output := sp'.output } ∧ t'.input = t.input ∧
+    (res = .ready → sp'.output = []) ∧ (sp.output.length < fuel → ∀ s, res ≠ .panic s) := by
+  intro fuel
+  induction fuel with
+  | zero =>
+    intro sp t sp' t' res h; simp only [outLoop] at h; cases h
+    exact ⟨⟨[], by simp⟩, rfl, rfl, by simp, by omega⟩
+  | succ k ih =>
+    intro sp t sp' t' res h
+    simp only [outLoop] at h
+    split at h
+    · cases h
+      exact ⟨⟨[], by simp⟩, rfl, rfl, fun _ => by simpa using ‹sp.output.isEmpty = true›, by simp⟩
+    · split at h
+      · cases h
+        obtain ⟨h1, h2⟩ := write_notok ‹_› (by simp)
+        exact ⟨⟨[], by simp [h1]⟩, rfl, h2, by simp, by simp⟩
+      · cases h
+        obtain ⟨h1, h2⟩ := write_notok ‹_› (by simp)
+        exact ⟨⟨[], by simp [h1]⟩, rfl, h2, by simp, by simp⟩
+      · cases h
+        obtain ⟨_, h1, h2⟩ := write_ok ‹_›
+        exact ⟨⟨[], by simpa using h1⟩, rfl, h2, by simp, by simp⟩
+      · rename_i tw n hne hw
+        obtain ⟨hn, h1, h2⟩ := write_ok hw
+        obtain ⟨⟨done, hd, hl⟩, heq, hi, hr, hf⟩ := ih _ _ h
+        simp only [Str.Parser.consumeOutput] at hd hf heq
+        refine ⟨⟨sp.output.take n ++ done, ?_, ?_⟩, ?_, hi.trans h2, hr, ?_⟩
+        · rw [List.append_assoc, ← hd, List.take_append_drop]
+        · rw [hl, h1, List.append_assoc]
+        · rw [heq]
+        · intro hlt
+          apply hf
+          have : n ≠ 0 := fun h0 => hne (by rw [h0])
+          simp only [List.length_drop]
+          have : sp.output.length ≠ 0 := by
+            intro h0; have := List.length_eq_zero_iff.1 h0; simp_all
+          omega
+
+theorem pollOutput_spec {r : AReq} {m : MutexSt} {t : Transport}
+    {r' : AReq} {m' : MutexSt} {t' : Transport} {res : ORes}
+    (h : r.pollOutput m t = (r', m', t', res)) :
+    (∃ done, r.sp.output = done ++ r'.sp.output ∧ t'.wlog = t.wlog ++ done) ∧
+    r'.sp = { r.sp with output := r'.sp.output } ∧ r'.writeable = r.writeable ∧ t'.input = t.input ∧
+    (res = .ready → r'.sp.output = []) ∧
+    (∀ s, res = .panic s → s = "async_io:476 lock held with empty output") := by
+  simp only [AReq.pollOutput] at h
+  repeat' (split at h)
+  all_goals first
+    | (have he' : r.sp.output = [] := by simpa using ‹r.sp.output.isEmpty = true›
+       cases h; exact ⟨⟨[], by simp⟩, rfl, rfl, rfl, fun _ => he', by simp⟩)
+    | (cases h; exact ⟨⟨[], by simp⟩, rfl, rfl, rfl, by simp, by simp⟩)
+    | (obtain ⟨hd, heq, hi, hr, hf⟩ := outLoop_spec _ _ _ ‹_›
+       cases h
+       exact ⟨hd, heq, rfl, hi, hr, fun s hs => absurd hs (hf (by omega) s)⟩)
+
+theorem parse_request_eq {p : Str.Parser} {new : Bytes} {dest : Option Nat} {sp : Str.Parser} {pr : ParseRes}
+    (h : p.parse new dest = (sp, pr)) : sp.request = p.request := by
+  have := (parse_frame p new dest).2.1; rwa [h] at this
+
+/-- `poll_input`'s loop: the request is untouched; with more fuel than pending transport input the
+fuel guard is never hit (every panic is a panic site of the Rust); `Ok(0)` is returned only when the
+parser reported the end of the stream — a transport read of 0 bytes is `UnexpectedEof`. -/
+theorem inLoop_spec : ∀ (fuel : Nat) (r : AReq) (new : Bytes) (dest : Option Nat) (m : MutexSt) (t : Transport)
+    {r' : AReq} {m' : MutexSt} {t' : Transport} {res : IRes},
+    inLoop fuel r new dest m t = (r', m', t', res) →
+    r'.sp.request = r.sp.request ∧
+    (t.input.length < fuel → ∀ s, res = .panic s →
+      s = "async_io:476 lock held with empty output" ∨ s ∈ strPanicSites) ∧
+    (∀ n d, res = .ready n d → 0 < n ∨
+      ∃ (sp0 : Str.Parser) (nw : Bytes) (sp1 : Str.Parser) (st : Status),
+        sp0.parse nw dest = (sp1, .ok st) ∧ st.streamEnd = true) := by
+  intro fuel
+  induction fuel with
+  | zero =>
+    intro r new dest m t r' m' t' res h
+    simp only [inLoop] at h; cases h
+    exact ⟨rfl, by omega, by simp⟩
+  | succ k ih =>
+    intro r new dest m t r' m' t' res h
+    simp only [inLoop] at h
+    cases hparse : r.sp.parse new dest with
+    | mk sp pr =>
+      have hreq := parse_request_eq hparse
+      rw [hparse] at h
+      cases pr with
+      | panic s =>
+        simp only at h; cases h
+        exact ⟨hreq, fun _ s' hs => by cases hs; exact Or.inr (parse_panic (by rw [hparse])), by simp⟩
+      | err e =>
+        simp only at h; cases h
+        exact ⟨hreq, by simp, by simp⟩
+      | ok st =>
+        simp only at h
+        split at h
+        · rename_i hc
+          cases h
+          refine ⟨by split <;> exact hreq, by simp, ?_⟩
+          intro n d hnd; cases hnd
+          simp only [Bool.or_eq_true, decide_eq_true_eq] at hc
+          rcases hc with hc | hc
+          · exact Or.inr ⟨_, _, _, _, hparse, hc⟩
+          · exact Or.inl hc
+        · cases hpo : AReq.pollOutput { r with sp := sp.compress } m t with
+          | mk r1 x =>
+            obtain ⟨m1, t1, ores⟩ := x
+            obtain ⟨_, hsp1, _, hin1, _, hpan1⟩ := pollOutput_spec hpo
+            have hreq1 : r1.sp.request = r.sp.request := by rw [hsp1]; exact hreq
+            have hpo' : AReq.pollOutput { sp := sp.compress, lock := r.lock, writeable := r.writeable } m t
+                = (r1, m1, t1, ores) := hpo
+            rw [hpo'] at h
+            cases ores with
+            | pending => simp only at h; cases h; exact ⟨hreq1, by simp, by simp⟩
+            | err e => simp only at h; cases h; exact ⟨hreq1, by simp, by simp⟩
+            | panic s =>
+              simp only at h; cases h
+              exact ⟨hreq1, fun _ s' hs => by cases hs; exact Or.inl (hpan1 _ rfl), by simp⟩
+            | ready =>
+              simp only at h
+              cases hrd : t1.read r1.sp.free with
+              | mk t2 pr =>
+                rw [hrd] at h
+                cases pr with
+                | pending => simp only at h; cases h; exact ⟨hreq1, by simp, by simp⟩
+                | ready ex =>
+                  cases ex with
+                  | error e => simp only at h; cases h; exact ⟨hreq1, by simp, by simp⟩
+                  | ok bs =>
+                    cases bs with
+                    | nil => simp only at h; cases h; exact ⟨hreq1, by simp, by simp⟩
+                    | cons b bs =>
+                      simp only at h
+                      obtain ⟨h1, h2, h3⟩ := ih _ _ _ _ _ h
+                      obtain ⟨hi, _, _⟩ := read_ok hrd
+                      refine ⟨h1.trans hreq1, fun hlt => h2 ?_, h3⟩
+                      rw [← hin1, hi] at hlt
+                      simp only [List.length_append, List.length_cons] at hlt
+                      omega
+
 end Fcgi.Run
